@@ -260,6 +260,17 @@ static void structured(unsigned long long& unit)
 				Rows c1 = dense;
 				for(int i = 0; i < n; i++) c1[i][n - 1] = c1[i][0];
 				check_matrix(c1, "rank_deficient");
+				if(n >= 3)
+				{
+					// singular through a combination with non-trivial coefficients: the elimination meets non-dyadic ratios, so a
+					// floating-point pivot test alone does not see an exact zero
+					Rows r4 = dense, r5 = dense, c2 = dense;
+					for(int j = 0; j < n; j++) { r4[n - 1][j] = r4[0][j] + r4[1][j]; r5[n - 1][j] = 3 * r5[0][j] - 2 * r5[1][j] + r5[2 % (n - 1)][j]; }
+					for(int i = 0; i < n; i++) c2[i][1] = 2 * c2[i][0] - 3 * c2[i][n - 1];
+					check_matrix(r4, "rank_deficient");
+					check_matrix(r5, "rank_deficient");
+					check_matrix(c2, "rank_deficient");
+				}
 			}
 			// graded scalings D1*A*D2 by powers of ten
 			if(n >= 2 && n <= 5)
@@ -281,6 +292,22 @@ static void structured(unsigned long long& unit)
 				for(int i = 0; i < n; i++)
 					for(int j = 0; j < n; j++) g[i][j] = sc * ((i == j ? 5.0 : 0.0) + (double)(int)(2 * v[(i * 4 + j * 7 + pat) % 9]));
 				check_matrix(g, "global_scale");
+			}
+	// orthogonal matrices and their neighbours: identity, plane rotations, signed permutations, each perturbed entry-wise by
+	// eps * pattern (the inverse of Q+E differs from Q^T by about |E|)
+	for(int n = 2; n <= 5; n++)
+		for(int kind = 0; kind < 4; kind++)
+			for(double eps : {0.0, 1e-13, 1e-12, 1e-11, 1e-9, 1e-6})
+			{
+				if(!mc::mine(unit++)) continue;
+				Rows q(n, std::vector<double>(n, 0.0));
+				for(int i = 0; i < n; i++) q[i][i] = 1;
+				if(kind == 1) { double th = 0.7; q[0][0] = std::cos(th); q[1][1] = std::cos(th); q[0][1] = -std::sin(th); q[1][0] = std::sin(th); }
+				if(kind == 2) { for(int i = 0; i < n; i++) { q[i][i] = 0; q[i][(i + 1) % n] = (i % 2) ? -1 : 1; } }
+				if(kind == 3) { double th = 2.1; int a = 0, b = n - 1; q[a][a] = std::cos(th); q[b][b] = std::cos(th); q[a][b] = -std::sin(th); q[b][a] = std::sin(th); q[n / 2][n / 2] = (n > 2 ? -1 : q[n / 2][n / 2]); }
+				for(int i = 0; i < n; i++)
+					for(int j = 0; j < n; j++) q[i][j] += eps * v[(i * 4 + j * 7 + kind) % 9];
+				check_matrix(q, "near_orthogonal");
 			}
 	// multiplicativity on integer matrices (exact)
 	for(int n = 2; n <= 4; n++)
@@ -314,6 +341,65 @@ static void structured(unsigned long long& unit)
 		}
 }
 
+// ---- one object, mutated in place: every answer is that of the current contents -------------------------------------------------
+static std::string answers(Matrix& M)
+{
+	std::string o;
+	double d = 0;
+	bool inv = false;
+	Matrix X;
+	if(mc::library_exits([&]() { d = M.Determinant(); })) o += "det:exit;"; else o += "det:" + mc::hexd(d) + ";";
+	if(mc::library_exits([&]() { inv = M.Invertible(); })) o += "invertible:exit;"; else o += std::string("invertible:") + (inv ? "1" : "0") + ";";
+	if(mc::library_exits([&]() { X = M.Inverse(); })) o += "inverse:exit;";
+	else
+	{
+		o += "inverse:";
+		for(unsigned i = 0; i < X.Rows(); i++)
+			for(unsigned j = 0; j < X.Columns(); j++) o += mc::hexd(X[i][j]) + ",";
+	}
+	return o;
+}
+static void object_histories(unsigned long long& unit)
+{
+	const double v[] = {1, -2, 3, 0.5, -1, 2, 4, -3, 1.5};
+	const char* MUT[] = {"+=", "-=", "operator[] assignment", "assignment from another matrix", "+= then -= (restored)", "row write through operator[]"};
+	for(int n = 1; n <= 4; n++)
+		for(int pa = 0; pa < 4; pa++)
+			for(int pb = 0; pb < 4; pb++)
+				for(int mut = 0; mut < 6; mut++)
+					for(int pre = 0; pre < 4; pre++)	// which queries precede the mutation: none, Determinant, Invertible, Inverse
+					{
+						if(!mc::mine(unit++)) continue;
+						Rows a(n, std::vector<double>(n)), b = a;
+						for(int i = 0; i < n; i++)
+							for(int j = 0; j < n; j++) { a[i][j] = (i == j ? 5.0 : 0.0) + (double)(int)(2 * v[(i * 4 + j * 7 + pa) % 9]); b[i][j] = (double)(int)(2 * v[(i * 3 + j * 5 + pb) % 9]); }
+						if(pb == 3 && n >= 2) { b = a; for(int j = 0; j < n; j++) b[n - 1][j] = a[0][j] - a[n - 1][j]; for(int i = 0; i + 1 < n; i++) for(int j = 0; j < n; j++) b[i][j] = 0; }	// A+B has two equal rows
+						Matrix M(a), B(b);
+						g_cases++;
+						if(pre == 1) mc::library_exits([&]() { volatile double d = M.Determinant(); (void)d; });
+						if(pre == 2) mc::library_exits([&]() { volatile bool d = M.Invertible(); (void)d; });
+						if(pre == 3) mc::library_exits([&]() { Matrix X = M.Inverse(); });
+						Rows now = a;
+						switch(mut)
+						{
+							case 0: M += B; for(int i = 0; i < n; i++) for(int j = 0; j < n; j++) now[i][j] = a[i][j] + b[i][j]; break;
+							case 1: M -= B; for(int i = 0; i < n; i++) for(int j = 0; j < n; j++) now[i][j] = a[i][j] - b[i][j]; break;
+							case 2: M[n - 1][0] = 7.0; now[n - 1][0] = 7.0; break;
+							case 3: M = B; now = b; break;
+							case 4: M += B; M -= B; break;
+							default: for(int j = 0; j < n; j++) { M[0][j] = b[0][j]; now[0][j] = b[0][j]; } break;
+						}
+						Matrix F(now);
+						std::string got = answers(M), want = answers(F);
+						if(got != want)
+						{
+							std::string key = "n=" + std::to_string(n) + ",A=" + std::to_string(pa) + ",B=" + std::to_string(pb) + ",mutation=" + MUT[mut] + ",queried_before=" + std::to_string(pre);
+							std::replace(key.begin(), key.end(), ' ', '_');
+							mc::violation("object_histories", "object_histories|" + key + "|answers_of_stale_contents", "after " + std::string(MUT[mut]) + " the object answers " + got.substr(0, 120) + " but a fresh matrix with the same entries answers " + want.substr(0, 120), key);
+						}
+					}
+}
+
 int main(int argc, char** argv)
 {
 	mc::init(argc, argv);
@@ -329,7 +415,7 @@ int main(int argc, char** argv)
 		return mc::ctx().violation_total ? 1 : 0;
 	}
 	silence();
-	mc::bound("rule", "complete products of integer matrices (all 2x2 over {-2..2}, all 3x3 over {-1,0,1} / {-1,0,1,2}), all signed permutation matrices, P*L*U with every permutation, tiny-pivot, triangular/diagonal/symmetric, rank-deficient, graded-scaling families; exact Bareiss determinant, binary128 inverse with complete pivoting; non-trivial = invertible matrices whose inverse was compared");
+	mc::bound("rule", "complete products of integer matrices (all 2x2 over {-2..2}, all 3x3 over {-1,0,1} / {-1,0,1,2}), all signed permutation matrices, P*L*U with every permutation, tiny-pivot, triangular/diagonal/symmetric, rank-deficient (duplicates and non-trivial combinations), near-orthogonal, graded-scaling families; object histories (query, in-place mutation, query) against a fresh object; exact Bareiss determinant, binary128 inverse with complete pivoting; non-trivial = invertible matrices whose inverse was compared");
 	unsigned long long unit = 0;
 	all_over(2, {-2, -1, 0, 1, 2}, unit, "all_2x2");
 	if(mc::thorough()) all_over(3, {-1, 0, 1, 2}, unit, "all_3x3");
@@ -338,6 +424,7 @@ int main(int argc, char** argv)
 	plu_families(unit);
 	tiny_pivots(unit);
 	structured(unit);
+	object_histories(unit);
 	mc::alphabet("entries_2x2", 5);
 	mc::alphabet("entries_3x3", mc::thorough() ? 4 : 3);
 	mc::bound("signed_permutations", std::string("all of size n<=") + (mc::thorough() ? "7" : "5"));
